@@ -75,6 +75,14 @@ def inject_literals(rng, q, n_lits):
         for a in q['assign']:
             if rng.random() < 0.7:
                 a[1] = literal(rng) if rng.random() < 0.6 else ['concat', literal(rng), literal(rng)]
+    if rng.random() < 0.25 and q.get('except') is None:
+        # Python floor division: `//` starts a comment in the JS port only, so a line break in front of it must not matter here
+        fd = ['floordiv', ['arith', '+', ['NR'], ['int', rng.randrange(0, 9)]], ['int', rng.randrange(1, 4)]]
+        if q['kind'] == 'select' and rng.random() < 0.6:
+            q['items'].insert(rng.randrange(0, len(q['items']) + 1), {'kind': 'expr', 'expr': fd})
+        else:
+            w = ['cmp', rng.choice(['!=', '==', '<']), fd, ['int', rng.randrange(0, 5)]]
+            q['where'] = w if q.get('where') is None else ['and', q['where'], w]
     if rng.random() < 0.4:
         w = ['cmp', rng.choice(['!=', '==']), literal(rng), literal(rng)]
         q['where'] = w if q.get('where') is None else ['or', q['where'], w]
